@@ -150,6 +150,9 @@ var quickPre = []preState{
 	{h("W:0:8 SnapA W:8:8 SnapA W:16:8 SnapA W:24:8 SnapU W:0:16"), false, false},
 	{h("W:0:8 SnapU Grow:1 W:32:8"), false, false},
 	{h("W:4:8 SnapU W:0:32 SnapA"), true, false},
+	// a revert to an inner member leaves a newer USER snapshot (s3) behind as an orphan hanging off an automatic one
+	{h("W:0:8 SnapA W:8:8 SnapA W:0:8 SnapU W:16:8 Revert:1 W:8:8"), false, false},
+	{h("W:0:8 SnapA W:8:8 SnapA W:0:8 SnapU W:16:8 Revert:1 SnapU"), false, false},
 }
 
 // EnumPairs lists the (pre-state, operation) pairs of a tier.
